@@ -250,7 +250,7 @@ def build(template_path, repo, variant="strict", inline=None):
         if not os.path.exists(path):
             raise LostAnchor("file %s not found" % relfile)
         mclo = re.match(r"closure\s+(.*)#(\d+)$", selector)
-        marg = re.match(r"callarg\s+`(.*)`\s+in\s+(.*)#(\d+)$", selector)
+        marg = re.match(r"callarg\s+`(.*)`\s+in\s+(.*)#(\d+)(?:\s+arg\s+(\d+))?$", selector)
         mreg = re.match(r"region\s+`(.*)`\s+\.\.\s+`(.*)`\s+in\s+(.*)$", selector)
         if mreg:
             # a range of statements of a function that cannot be extracted as a whole (JSON/websocket/logging around a core
@@ -267,7 +267,7 @@ def build(template_path, repo, variant="strict", inline=None):
             res.rewrites.append(("R18", "%s:%d-%d %s" % (relfile, item.line0, item.line1, selector), "statement range (everything else of the function is dropped)", opts["sig"] + (" ... " + opts["tail"] if opts.get("tail") else "")))
         elif marg:
             # the argument expression of a call inside a function that cannot be extracted as a whole, presented as a function
-            item = find_call_arg(path, marg.group(2).strip(), marg.group(1), int(marg.group(3)))
+            item = find_call_arg(path, marg.group(2).strip(), marg.group(1), int(marg.group(3)), int(marg.group(4)) if marg.group(4) else None)
             if not opts.get("sig"):
                 raise ValueError("callarg extraction needs a `sig` option")
             body = R.syn("{ ") + list(item.toks) + R.syn(" }")
